@@ -302,21 +302,23 @@ def rule_trigger_complements_guard(chk, rid):
     # trigger: the test dominating the `is_volatile = True` assignments
     cfg = ea.cfg
     trig = None
+    tset = None
     for n in cfg.nodes:
         if n.kind == "stmt" and isinstance(n.ast, ast.Assign) and isinstance(n.ast.value, ast.Constant) and n.ast.value.value is True \
                 and "volatile" in U(n.ast.targets[0]):
             for t in cfg.nodes:
-                if t.kind == "test" and ea.extravar in U(t.ast) and "type(" not in U(t.ast) and cfg.edge_dominates(t.id, "T", n.id):
-                    trig = t
+                if t.kind != "test" or ea.extravar not in U(t.ast) or "type(" in U(t.ast):
+                    continue
+                for lab in ("T", "F"):      # the flag may be set on either branch of the presence test (if/elif chains)
+                    if cfg.edge_dominates(t.id, lab, n.id):
+                        ttree = nnf(t.ast, lab == "T", _norm2)
+                        tparts = ttree[1] if ttree[0] == "and" else [ttree]
+                        lits_ = {(p[1], p[2]) for p in tparts if p[0] == "lit" and nnf_mentions(p, ea.extravar)}
+                        if lits_:
+                            trig, tset = t, lits_
     if trig is None:
         chk.ob(rid, ea.C, False, "no test over extra_parameters guards the volatility flag", ea.fn, ea.mod, key="complement")
         return
-    ttree = nnf(trig.ast, True, _norm2)
-    tparts = ttree[1] if ttree[0] == "and" else [ttree]
-    tset = set()
-    for p in tparts:
-        if nnf_mentions(p, ea.extravar) and p[0] == "lit":
-            tset.add((p[1], p[2]))
     want = {(t, not p) for t, p in gset}
     chk.ob(rid, ea.C, tset == want, f"lookup guard {sorted(gset)}; volatility trigger {sorted(tset)}" + ("" if tset == want else
            ": the two disagree (e.g. an empty {} is looked up but then declared volatile, so the result is never stored and never reused)"),
